@@ -674,6 +674,46 @@ def float_abs_tol(node, env, funcs=None, margin=None, cut_guard=False, dps=50, m
         return factor * mpf(2) ** -53 * max(worst, abs(base))
 
 
+_ARITH = ("add", "mul", "sub", "div", "neg", "add_vec", "mul_vec", "list")
+MAX_EXACT_BITS = 300000
+
+
+def exact_bits(d, env=None, funcs=None):
+    """estimated size in bits of the exact number a numbers-only arithmetic recipe denotes (None when the subtree
+    holds anything but exact numbers and + - * / **): (1 - 10/(2**63+1))**388800 has magnitude 1 but 25 million bits"""
+    if not isinstance(d, (list, tuple)) or not d or not isinstance(d[0], str):
+        return None
+    h = d[0]
+    try:
+        if h == "integer":
+            return abs(int(d[1])).bit_length() + 1
+        if h == "rational":
+            return abs(int(d[1])).bit_length() + abs(int(d[2])).bit_length() + 1
+    except Exception:
+        return None
+    if h in _ARITH:
+        tot = 0
+        for x in d[1:]:
+            b = exact_bits(x, env, funcs)
+            if b is None:
+                return None
+            tot += b + 1
+        return tot
+    if h == "pow" and len(d) == 3:
+        b = exact_bits(d[1], env, funcs)
+        e = exact_bits(d[2], env, funcs)
+        if b is None or e is None:
+            return None
+        if e > 64:
+            return 10 ** 9
+        try:
+            ev = abs(complex(value(d[2], env, 20, funcs, None, False, 400)))
+        except Exception:
+            return None
+        return int(b * max(1.0, min(ev, 1e9)))
+    return None
+
+
 def resource_blocked(node, env=None, mag=300, funcs=None):
     """True when some subtree of the recipe, evaluated on its own, has a value outside
     10**+-mag (e.g. 4**(2**63)): such recipes are not sent to the library at all --
@@ -687,6 +727,11 @@ def resource_blocked(node, env=None, mag=300, funcs=None):
             return
         for x in d[1:]:
             walk(x)
+        if d[0] == "pow":
+            b = exact_bits(d, env, funcs)
+            if b is not None and b > MAX_EXACT_BITS:
+                hit[0] = True
+                return
         if d[0] in ("pow", "Pow", "sqrt", "cbrt", "exp", "mul", "mul_vec", "Mul", "gamma", "Gamma"):
             try:
                 value(d, env, 20, funcs, None, False, mag)
